@@ -111,6 +111,18 @@ def document(rng) -> tuple[dict, list[str]]:
     return doc, feats
 
 
+def dotted(doc: dict, rng) -> dict:
+    """the same document with every definition moved into a module (`pkg.Nul`, `other.Day`, …), references rewritten"""
+    key = "definitions" if "definitions" in doc else "$defs"
+    mods = {n: rng.choice(["pkg", "pkg", "other", "pkg.sub"]) for n in doc[key]}
+    text = json.dumps(doc)
+    for n, m in mods.items():
+        text = text.replace(f'"#/{key}/{n}"', f'"#/{key}/{m}.{n}"')
+    d = json.loads(text)
+    d[key] = {f"{mods[n]}.{n}": v for n, v in d[key].items()}
+    return d
+
+
 # options that decide which imported names a module needs
 IMPORT_OPTS = ["collapse_root_models", "use_union_operator", "use_standard_collections", "use_generic_container_types", "strict_nullable",
                "force_optional_for_required_fields", "field_constraints", "use_annotated", "use_one_literal_as_default", "use_field_description",
@@ -136,13 +148,21 @@ def make_case(rng, random_opts) -> dict:
     for k in ("treat_dot_as_module", "use_exact_imports", "keyword_only", "parent_scoped_naming"):
         opts.pop(k, None)
     ift = "jsonschema"
-    if "definitions" in doc and rng.chance(1, 6):
+    modular = False
+    if ("definitions" in doc or "$defs" in doc) and rng.chance(1, 7):
+        # package output: the definitions live in modules of their own (dotted names), every module has its own Imports
+        # object and imports the others relatively — pruning works per module
+        doc, modular = dotted(doc, rng), True
+        feats.append("package_output")
+    elif "definitions" in doc and rng.chance(1, 6):
         doc, ift = docs.to_openapi(doc), "openapi"
     # `const` is not in the documented feature set (docs/supported-data-types.md; `const: null` ends in a pydantic ValidationError
     # of the generator's own ContextDataType for pydantic_v2 output): such documents are judged as the adversarial stream
     # (no hang, no unparsable file), every other one must succeed
     clean = "const" not in json.dumps(doc)
     case = {"doc": doc, "model": model, "opts": opts, "input_file_type": ift, "clean": clean, "features": ["import_groups"] + feats}
+    if modular:
+        case["modular"] = True
     if rng.chance(1, 6):
         case["formatters"] = "default"
     if rng.chance(1, 4):
